@@ -1,3 +1,4 @@
+import Cirbo.Proofs.ReplaceErr
 import Cirbo.Proofs.Rewrite
 import Cirbo.Proofs.Rename
 import Cirbo.Proofs.RenameTotal
@@ -15,7 +16,8 @@ import Cirbo.Proofs.ReplaceSem
 -- OBLIGATION: c19_rename_errors
 -- OBLIGATION: c19_replace_subcircuit_wellformed
 -- OBLIGATION: c19_replace_subcircuit_keeps_function
--- PARTIAL: rename_gate is total: on a well-formed circuit it returns exactly when the old label is a gate and the new one is not, and otherwise raises CircuitGateIsAbsentError / CircuitGateAlreadyExistsError for exactly that reason (c19_rename_returns, c19_rename_errors). replace_subcircuit: 'keeps the truth table and the circuit well formed whenever it returns' is proved (c19_replace_subcircuit_wellformed for ANY replacement; c19_replace_subcircuit_keeps_function for a replacement that agrees with the slice on every valuation of the circuit, under the side condition that no slice output is a circuit INPUT — without it the call can return a circuit with fewer inputs). Which errors it raises otherwise ('or raises one of the documented errors') is established by the correspondence run only: the model returns the error names the code raises, compared on every generated call.
+-- OBLIGATION: c19_replace_subcircuit_errors
+-- PARTIAL: rename_gate is total: on a well-formed circuit it returns exactly when the old label is a gate and the new one is not, and otherwise raises CircuitGateIsAbsentError / CircuitGateAlreadyExistsError for exactly that reason (c19_rename_returns, c19_rename_errors). replace_subcircuit: 'keeps the truth table and the circuit well formed whenever it returns' is proved (c19_replace_subcircuit_wellformed for ANY replacement; c19_replace_subcircuit_keeps_function for a replacement that agrees with the slice on every valuation of the circuit, under the side condition that no slice output is a circuit INPUT — without it the call can return a circuit with fewer inputs). Which errors it raises otherwise ('or raises one of the documented errors') is a theorem as well (c19_replace_subcircuit_errors: on a well-formed circuit only library errors, never a Python-internal one, and no fuel exhaustion).
 -/
 namespace Cirbo
 open Circuit
@@ -141,5 +143,18 @@ example : ((Circuit.replaceSubcircuit
 #print axioms c19_rename_errors
 #print axioms c19_replace_subcircuit_wellformed
 #print axioms c19_replace_subcircuit_keeps_function
+
+/-- **"… or raises one of the documented errors"**: on a well-formed circuit, whenever `replace_subcircuit` does not
+return it raised a library error — never a Python-internal one (KeyError, ValueError, AssertionError, IndexError), and
+the model's fuel never runs out -/
+theorem c19_replace_subcircuit_errors {c sub : Circuit} {im om : List (Label × Label)} {ctr : Nat} (hw : WFS c) :
+    (∀ e, c.replaceSubcircuit sub im om ctr = .error e →
+      e ∈ ["ReplaceSubcircuitError", "GateDoesntExistError", "CircuitGateIsAbsentError", "CircuitGateAlreadyExistsError",
+           "CircuitValidationError", "CreateBlockError", "DeleteBlockError", "GateHasUsersError", "CircuitIsCyclicalError"]) ∧
+    (∀ e ∈ ["Py:KeyError", "Py:ValueError", "Py:AssertionError", "Py:IndexError", "fuel"],
+      c.replaceSubcircuit sub im om ctr ≠ .error e) :=
+  ⟨fun _ h => (re_replaceSubcircuit_errors_core hw h).documented, re_replaceSubcircuit_no_internal hw⟩
+
+#print axioms c19_replace_subcircuit_errors
 
 end Cirbo
